@@ -598,7 +598,7 @@ func (w *vfC02World) step(rt *rapid.T) error {
 		w.genContent(rt, wr, true, true)
 		return w.apply(wr)
 	}
-	action := rapid.SampledFrom([]string{"update", "update", "update", "update", "branch", "branch", "tombstone", "tombstone"}).Draw(rt, "action")
+	action := rapid.SampledFrom([]string{"update", "update", "update", "branch", "branch", "branch", "tombstone", "tombstone"}).Draw(rt, "action")
 	live := d.liveLeaves()
 	if action == "tombstone" && len(live) == 0 {
 		action = "update" // becomes a resurrection
@@ -625,8 +625,17 @@ func (w *vfC02World) step(rt *rapid.T) error {
 					}
 				}
 			}
-			// index len(cands) = a disconnected new root
-			if k := rapid.IntRange(0, len(cands)).Draw(rt, "parent"); k < len(cands) {
+			// half of the time extend a losing live branch (when there is one)
+			var losing []*vfC02Rev
+			for _, l := range live {
+				if l != d.Winner {
+					losing = append(losing, l)
+				}
+			}
+			if len(losing) > 0 && rapid.Bool().Draw(rt, "extendLosing") {
+				wr.parent = losing[rapid.IntRange(0, len(losing)-1).Draw(rt, "losing")]
+			} else if k := rapid.IntRange(0, len(cands)).Draw(rt, "parent"); k < len(cands) {
+				// index len(cands) = a disconnected new root
 				wr.parent = cands[k]
 			} else {
 				w.classes["second-root"] = true
